@@ -73,6 +73,28 @@ def _geq(a, b, path, out, seen):
     if key in seen:
         return
     seen[key] = True
+    if isinstance(a, V.SCoded) or isinstance(b, V.SCoded):
+        sc, other = (a, b) if isinstance(a, V.SCoded) else (b, a)
+        sp = sc.spec
+        if isinstance(other, V.SCoded):
+            out.append((path + ' code', sc.code == other.code if sp.key() == other.spec.key() else z3.BoolVal(False)))
+            return
+        if sp.wrap_known is not None and isinstance(other, SObj) and other.cls is sp.wrap_known:
+            inner = [v for v in other.f.values() if isinstance(v, SEnum) or isinstance(v, sp.enum_cls)]
+            other = inner[0] if len(inner) == 1 else other
+        if isinstance(other, SEnum) and other.cls is sp.enum_cls:
+            oc = other.code_hint if other.code_hint is not None else V.enum_table(sp.enum_cls, other.idx, lambda m: m.value.code)
+            out.append((path + ' (member with the same code)', z3.And(sp.known(sc.code), sc.code == oc)))
+            return
+        if isinstance(other, sp.enum_cls):
+            out.append((path + ' (member with the same code)', sc.code == other.value.code))
+            return
+        if sp.fallback_cls is not None and isinstance(other, SObj) and other.cls is sp.fallback_cls:
+            out.append((path + ' (fallback item with the same unassigned code)',
+                        z3.And(z3.Not(sp.known(sc.code)), sc.code == ops.as_int(other.f['code']))))
+            return
+        out.append((path + ' coded item vs %s' % I.py_type_of(other).__name__, z3.BoolVal(False)))
+        return
     if isinstance(a, AnyInt) or isinstance(b, AnyInt):
         other = b if isinstance(a, AnyInt) else a
         out.append((path + ' is an integer', z3.BoolVal(ops.is_intlike(other))))
@@ -174,6 +196,8 @@ def oblige_equal(P, name, a, b, kind='post', where=None):
     except NotComparable as e:
         P.obligations.append(E.Obligation(name, kind, 'unknown', detail=dict(reason=str(e)), where=where))
         return False
+    if not parts:
+        P.obligations.append(E.Obligation(name + ' (no comparable state: trivially equal)', kind, 'proved', where=where))
     for label, f in parts:
         f = V.simp(f)
         if z3.is_true(f):
